@@ -126,6 +126,16 @@ def levelset_owner(expr, aliases):
     (obj_name, level_expr) else None."""
     if isinstance(expr, ast.Name):
         return getattr(aliases, "levels", {}).get(expr.id)
+    if isinstance(expr, ast.Call) and isinstance(expr.func, ast.Attribute) \
+            and expr.func.attr == "setdefault" and expr.args:
+        # <dict>.setdefault(level, set()) IS the stored level set
+        d = expr.func.value
+        if isinstance(d, ast.Attribute) and d.attr == "pixeldict" and \
+                isinstance(d.value, ast.Name):
+            return d.value.id, expr.args[0]
+        if isinstance(d, ast.Name) and d.id in aliases:
+            return aliases[d.id], expr.args[0]
+        return None
     if not isinstance(expr, ast.Subscript):
         return None
     b = expr.value
